@@ -252,7 +252,11 @@ def graph_class(tree, leaf_kinds):
     return "supported"
 
 
-def extract_class(tree):
+def extract_class(tree, finfo):
+    """composite_view: some call expands into several primitive views (where, mean, var, softmax, ...): the generator does not
+    know the library's internal tree, so these get a class of their own"""
+    if G.is_composite(tree, finfo):
+        return "composite_view"
     c = G.classify_tree(tree)
     return "view_operand_at_pos_ge1" if c["pos_ge1"] else "left_deep"
 
